@@ -43,6 +43,10 @@ def run(ctx):
     ctx.validate("KdqTree", t2, "random sessions (1-4 dims, up to 400 points) + large fills", sabotage=D.sabotage,
                  replay=lambda i: {"cfg": t2[i]["cfg"], "script": t2[i]["script"]},
                  nontrivial=lambda t: not t["ev"][0]["tree"]["leaf"])
+    # real-valued data: the relational clauses (refill reproduces the build counts, divergence 0) on decimal grids and continuous values
+    t4 = [D.refill_trace(rng) for _ in range(150 if q else 1500)]
+    ctx.validate("KdqTree", t4, "real-valued build data filed again under another id", replay=lambda i: {"mode": "refill", "cfg": t4[i]["cfg"], "data": t4[i]["data"]},
+                 nontrivial=lambda t: len(t["ev"][0]["cb"]) > 1)
     ctx.assumptions += ["data are integer-valued (all quantities of the construction are then exact in the specification)",
                         "KL / KSS values are compared with relative tolerance 1e-7"]
     return ctx.finish()
@@ -50,6 +54,9 @@ def run(ctx):
 
 def replay(ctx, bundle):
     r = bundle["replay"]
+    if r.get("mode") == "refill":
+        ctx.validate("KdqTree", [D.refill_from(r["cfg"], r["data"])], "replay", replay=lambda i: r)
+        return ctx.finish()
     t = D.session(r["cfg"], [tuple(s) for s in r["script"]])
     ctx.validate("KdqTree", [t], "replay", replay=lambda i: r)
     return ctx.finish()
